@@ -60,6 +60,31 @@ mod verif_cex_cursor {
                     String::from_utf8_lossy(p), rest.len(), rest.first().map(|k| String::from_utf8_lossy(k).to_string()), tail.len()));
             }
         }
+        // ONE cursor seeked again and again: wherever the previous seek / iteration left it, a seek must answer and position
+        // exactly like a seek on a fresh cursor (every ordered pair of probes, with 0, 1 or 3 steps of iteration in between)
+        for (i, p0) in probes.iter().enumerate() {
+            for (j, p1) in probes.iter().enumerate() {
+                let steps = (i + 2 * j) % 3;
+                let steps = if steps == 2 { 3 } else { steps };
+                let mut c = b.cursor();
+                let _ = c.seek(p0);
+                for _ in 0..steps { let _ = c.next(); }
+                let ex = c.seek(p1);
+                if ex != m.contains_key(p1) {
+                    return Err(format!("{}: on a cursor positioned by seek({:?}) + {} step(s), seek({:?}) returned {}, key present: {}", ctx,
+                        String::from_utf8_lossy(p0), steps, String::from_utf8_lossy(p1), ex, m.contains_key(p1)));
+                }
+                let rest: Vec<Vec<u8>> = c.take(6).map(|d| d.key().to_vec()).collect();
+                let tail: Vec<Vec<u8>> = m.range::<Vec<u8>, _>((Bound::Included(p1.clone()), Bound::Unbounded)).take(6).map(|(k, _)| k.clone()).collect();
+                let pred = m.range::<Vec<u8>, _>((Bound::Unbounded, Bound::Excluded(p1.clone()))).next_back().map(|(k, _)| k.clone());
+                let ok = rest == tail || (!rest.is_empty() && Some(rest[0].clone()) == pred && rest[1..] == tail[..tail.len().min(rest.len() - 1)] && (rest.len() == 6 || rest.len() == tail.len() + 1));
+                if !ok {
+                    return Err(format!("{}: on a cursor positioned by seek({:?}) + {} step(s), iteration after seek({:?}) starts with {:?}; expected the entries >= the key {:?}, optionally preceded by its predecessor", ctx,
+                        String::from_utf8_lossy(p0), steps, String::from_utf8_lossy(p1), rest.iter().map(|k| String::from_utf8_lossy(k).to_string()).collect::<Vec<_>>(),
+                        tail.iter().map(|k| String::from_utf8_lossy(k).to_string()).collect::<Vec<_>>()));
+                }
+            }
+        }
         // ranges: every kind of bound over pairs of probes
         for (i, lo) in probes.iter().enumerate() {
             for hi in probes.iter().skip(i) {
